@@ -22,3 +22,6 @@ json.dump(m,open(p,"w"),indent=1)
 PY
 done
 [ -z "$(git -C /repo status --short)" ] || echo "WARNING /repo not clean"
+
+# these runs were made against a modified /repo: put the committed evidence files back
+git -C /verif checkout -- evidence 2>/dev/null
